@@ -179,7 +179,7 @@ KA = [W.PASS, W.FAIL, W.ERROR, W.XPASS, W.SKIP_BODY, W.ERR_TD, W.TD_ERR]
 def equal(j, ka, kb, su, td, imp, verbose, both=False, opt=0):
     global LAST
     j = ci(j, 1, 3)
-    opt = ci(opt, 0, 1)
+    opt = ci(opt, 0, 2)          # 1: --shuffle; 2: every child writes diagnostic lines that end in numbers to its real stderr before its report
     ka, kb = pick(KA, ka), pick(KA, kb)
     su, td = ci(su, 0, 2), ci(td, 0, 3)      # td 3: w.A cannot be torn down (NotImplementedError): the sequential run resumes the rest in subprocesses
     imp = cb(imp)
@@ -200,7 +200,8 @@ def equal(j, ka, kb, su, td, imp, verbose, both=False, opt=0):
         from zope.testrunner import shuffle as SH
         SH.random = _random
     seq = FR.run(world, 'seq', argv=argv)
-    par = FR.run(world, {1: 'j1', 2: 'j2', 3: 'j3'}[j], argv=argv)
+    noise = ('noise', b'gc: objects in each generation: 702 4914 80652\nResourceWarning: unclosed file 3 2 1 \n') if opt == 2 else None
+    par = FR.run(world, {1: 'j1', 2: 'j2', 3: 'j3'}[j], argv=argv, fault=noise)
     with untraced():
         why = None
 
@@ -249,7 +250,7 @@ def _sb(dmax, gmax):
 
 _PE = [('j', 'int'), ('ka', 'int'), ('kb', 'int'), ('su', 'int'), ('td', 'int'), ('imp', 'bool'), ('verbose', 'int'), ('both', 'bool'), ('opt', 'int')]
 _CE = ', '.join(n for n, _ in _PE)
-_BE = '1 <= j <= 3 and 0 <= ka < %d and 0 <= kb < %d and 0 <= su <= 2 and 0 <= td <= 3 and 0 <= verbose <= 2 and 0 <= opt <= 1' % (len(KA), len(KA))
+_BE = '1 <= j <= 3 and 0 <= ka < %d and 0 <= kb < %d and 0 <= su <= 2 and 0 <= td <= 3 and 0 <= verbose <= 2 and 0 <= opt <= 2' % (len(KA), len(KA))
 
 
 def _v(**kw):
@@ -291,6 +292,6 @@ SPEC = {
                     'thorough': ['j == %d and ka == %d and verbose == %d' % (j, k, vb) for j in (1, 2, 3) for k in range(len(KA)) for vb in range(3)]},
          'reach': 'equal_reach', 'reach_bounds': {'quick': _BE + ' and su == 0', 'thorough': _BE + ' and su == 0'},
          'timeout': {'quick': 400, 'thorough': 1700},
-         'fidelity': [_ve(), _ve(j=3, ka=6, kb=2, td=1, verbose=2), _ve(j=1, su=2, imp=True, verbose=0), _ve(j=2, ka=2, kb=1, both=True), _ve(j=2, td=3), _ve(j=3, opt=1, ka=0), _ve(j=1, opt=1, td=3)]},
+         'fidelity': [_ve(), _ve(j=3, ka=6, kb=2, td=1, verbose=2), _ve(j=1, su=2, imp=True, verbose=0), _ve(j=2, ka=2, kb=1, both=True), _ve(j=2, td=3), _ve(j=3, opt=1, ka=0), _ve(j=1, opt=1, td=3), _ve(j=2, opt=2, ka=2)]},
     ],
 }
